@@ -63,15 +63,19 @@ small_vector<T, S>::small_vector(size_type n)
     data_ = local_storage_;
     size_ = data_ + n;
     capacity_ = data_ + S;
+
+    // The elements must be value-initialized (as for `std::vector`); the
+    // objects of `local_storage_` are only default-initialized.
+    if (std::is_trivially_default_constructible_v<T>)
+      std::fill_n(begin(), n, T());
   }
   else  // n > S
   {
     data_ = static_cast<T *>(::operator new(n * sizeof(T)));
     capacity_ = size_ = data_ + n;
 
-    if (!std::is_trivially_default_constructible_v<T>)
-      for (size_type k(0); k < n; ++k)
-        new (data_ + k) T();
+    for (size_type k(0); k < n; ++k)
+      new (data_ + k) T();
   }
 
   assert(size() == n);
@@ -432,6 +436,8 @@ void small_vector<T, S>::resize(size_type n)
             new (data_ + k) T();
       }
     }
+    else if (n > size())  // appended elements are value-initialized
+      std::fill(end(), begin() + n, T());
 
     size_ = data_ + n;
     // Vector capacity isn't reduced.
